@@ -1,26 +1,464 @@
 import BlockCiphers.Proofs.Xtea
 import BlockCiphers.Proofs.Rc5SpeckC01
+import BlockCiphers.Proofs.Des
+import BlockCiphers.Proofs.Blowfish
+import BlockCiphers.Proofs.Cast5
+import BlockCiphers.Proofs.Serpent
+import BlockCiphers.Proofs.Cast6
+import BlockCiphers.Proofs.Threefish
+import BlockCiphers.Proofs.Rc2
+import BlockCiphers.Proofs.Camellia
+import BlockCiphers.Proofs.Aria
+import BlockCiphers.Proofs.Sm4
+import BlockCiphers.Proofs.Magma
+import BlockCiphers.Proofs.Belt
+import BlockCiphers.Proofs.BeltWide
+import BlockCiphers.Proofs.Twofish
+import BlockCiphers.Proofs.Idea
+import BlockCiphers.Proofs.AesSpec
+import BlockCiphers.Proofs.AesNi
+import BlockCiphers.Proofs.AesFixslice
 /-
-C01 — decryption inverts encryption.  ONLY property theorems and non-vacuity examples live here.
-One theorem per cipher model; `Thm.C01` grows with the list of models (the registry entries that are
-still outside it are listed in the evidence under `no_model_lines_by_cipher`).
+C01 — decryption inverts encryption for every cipher, key, block and backend
+GENERATED statement file (tools/gen_thm.py): every theorem below restates, verbatim, a theorem of a Proofs/ module
+and is proved by applying it.  ONLY property theorems and non-vacuity examples live in Thm/.
+One theorem (pair) per cipher model, for ALL keys of every accepted length and ALL blocks; Threefish for all tweaks; BelT wide block
+for all inputs of at least 32 bytes; AES at the FIPS-197 level (all Nr, all expanded keys) and for the AES-NI model.
+AES: FIPS-197 level, AES-NI model and the four fixslice backends (64/32-bit, normal/compact).
+Registry entries still outside this file: Kuznyechik (4 backends), GIFT-128 (listed in the evidence).
 -/
-namespace BC.Thm.C01
 
-/-- XTEA: for every 128-bit key and every block, `decrypt (encrypt b) = b`. -/
-theorem xtea_dec_enc (key : BitVec 128) (b : BitVec 64) :
-    Xtea.decrypt (Xtea.keyOfBits key) (Xtea.encrypt (Xtea.keyOfBits key) b) = b :=
-  Xtea.decrypt_encrypt _ b
+namespace BC.Xtea
+theorem C01.decrypt_encrypt (k : Key) (b : BitVec 64) : decrypt k (encrypt k b) = b :=
+  _root_.BC.Xtea.decrypt_encrypt k b
+end BC.Xtea
 
-/-- RC5: every `RC5<W,R,B>` (any word size that is a multiple of 8 bits, any rounds, any key length): a key of the
-accepted length yields an instance whose `dec` inverts its `enc` and vice versa on every block. -/
-theorem rc5_round_trip (w r b : Nat) (hw : w % 8 = 0) (key : Bytes) (hk : key.length = b) :
-    Models.RoundTrips (Models.Rc5.mk w r b) key :=
-  Models.rc5_mk_roundTrips w r b hw key hk
+namespace BC.Models
+theorem C01.rc5_mk_roundTrips (w r b : Nat) (hw : w % 8 = 0) (key : Bytes) (hk : key.length = b) :
+    RoundTrips (Rc5.mk w r b) key :=
+  _root_.BC.Models.rc5_mk_roundTrips w r b hw key hk
+end BC.Models
 
-/-- the ten Speck types -/
-theorem speck_round_trip : ∀ p ∈ BC.Speck.all, ∀ key : Bytes, key.length = p.keyBytes →
-    Models.RoundTrips (Models.Speck.mk p) key :=
-  Models.speck_mk_roundTrips
+namespace BC.Models
+/-- every type of the harness menu (and, by `rc5_mk_roundTrips`, every other `RC5<W,R,B>`) -/
+theorem C01.rc5_menu_roundTrips : ∀ t ∈ Rc5.menu, ∀ key : Bytes, key.length = t.2.2 →
+    RoundTrips (Rc5.mk t.1 t.2.1 t.2.2) key :=
+  _root_.BC.Models.rc5_menu_roundTrips
+end BC.Models
 
-end BC.Thm.C01
+namespace BC.Models
+theorem C01.speck_mk_roundTrips : ∀ p ∈ BC.Speck.all, ∀ key : Bytes, key.length = p.keyBytes →
+    RoundTrips (Speck.mk p) key :=
+  _root_.BC.Models.speck_mk_roundTrips
+end BC.Models
+
+namespace BC.Des
+/-- Des: `decrypt_block (encrypt_block b) = b` for every 64-bit key -/
+theorem C01.des_decrypt_encrypt (key b : BitVec 64) : desDec key (desEnc key b) = b :=
+  _root_.BC.Des.decrypt_encrypt key b
+end BC.Des
+
+namespace BC.Des
+theorem C01.des_encrypt_decrypt (key b : BitVec 64) : desEnc key (desDec key b) = b :=
+  _root_.BC.Des.encrypt_decrypt key b
+end BC.Des
+
+namespace BC.Des
+/-- key-level statements (the form used by `Thm/C01`) -/
+theorem C01.tdesEde3_dec_enc (key : BitVec 192) (b : BitVec 64) :
+    ede3Dec (Tdes3.new key) (ede3Enc (Tdes3.new key) b) = b :=
+  _root_.BC.Des.tdesEde3_dec_enc key b
+end BC.Des
+
+namespace BC.Des
+theorem C01.tdesEde3_enc_dec (key : BitVec 192) (b : BitVec 64) :
+    ede3Enc (Tdes3.new key) (ede3Dec (Tdes3.new key) b) = b :=
+  _root_.BC.Des.tdesEde3_enc_dec key b
+end BC.Des
+
+namespace BC.Des
+theorem C01.tdesEee3_dec_enc (key : BitVec 192) (b : BitVec 64) :
+    eee3Dec (Tdes3.new key) (eee3Enc (Tdes3.new key) b) = b :=
+  _root_.BC.Des.tdesEee3_dec_enc key b
+end BC.Des
+
+namespace BC.Des
+theorem C01.tdesEee3_enc_dec (key : BitVec 192) (b : BitVec 64) :
+    eee3Enc (Tdes3.new key) (eee3Dec (Tdes3.new key) b) = b :=
+  _root_.BC.Des.tdesEee3_enc_dec key b
+end BC.Des
+
+namespace BC.Des
+theorem C01.tdesEde2_dec_enc (key : BitVec 128) (b : BitVec 64) :
+    ede2Dec (Tdes2.new key) (ede2Enc (Tdes2.new key) b) = b :=
+  _root_.BC.Des.tdesEde2_dec_enc key b
+end BC.Des
+
+namespace BC.Des
+theorem C01.tdesEde2_enc_dec (key : BitVec 128) (b : BitVec 64) :
+    ede2Enc (Tdes2.new key) (ede2Dec (Tdes2.new key) b) = b :=
+  _root_.BC.Des.tdesEde2_enc_dec key b
+end BC.Des
+
+namespace BC.Des
+theorem C01.tdesEee2_dec_enc (key : BitVec 128) (b : BitVec 64) :
+    eee2Dec (Tdes2.new key) (eee2Enc (Tdes2.new key) b) = b :=
+  _root_.BC.Des.tdesEee2_dec_enc key b
+end BC.Des
+
+namespace BC.Des
+theorem C01.tdesEee2_enc_dec (key : BitVec 128) (b : BitVec 64) :
+    eee2Enc (Tdes2.new key) (eee2Dec (Tdes2.new key) b) = b :=
+  _root_.BC.Des.tdesEee2_enc_dec key b
+end BC.Des
+
+namespace BC.Blowfish
+/-- C01 for Blowfish, every state (so every key of every length), both byte orders -/
+theorem C01.blowfish_decrypt_encrypt (bo : ByteOrder) (st : State) (b : BitVec 64) :
+    decryptBlock bo st (encryptBlock bo st b) = b :=
+  _root_.BC.Blowfish.decrypt_encrypt bo st b
+end BC.Blowfish
+
+namespace BC.Blowfish
+theorem C01.blowfish_encrypt_decrypt (bo : ByteOrder) (st : State) (b : BitVec 64) :
+    encryptBlock bo st (decryptBlock bo st b) = b :=
+  _root_.BC.Blowfish.encrypt_decrypt bo st b
+end BC.Blowfish
+
+namespace BC.Blowfish
+/-- … in particular for the state of every accepted key -/
+theorem C01.blowfish_decrypt_encrypt_key (bo : ByteOrder) (key : Array (BitVec 8)) (st : State) (_h : new key = some st)
+    (b : BitVec 64) : decryptBlock bo st (encryptBlock bo st b) = b :=
+  _root_.BC.Blowfish.decrypt_encrypt_key bo key st _h b
+end BC.Blowfish
+
+namespace BC.Blowfish
+theorem C01.blowfish_encrypt_decrypt_key (bo : ByteOrder) (key : Array (BitVec 8)) (st : State) (_h : new key = some st)
+    (b : BitVec 64) : encryptBlock bo st (decryptBlock bo st b) = b :=
+  _root_.BC.Blowfish.encrypt_decrypt_key bo key st _h b
+end BC.Blowfish
+
+namespace BC.Cast5
+/-- … in particular for the schedule of every accepted key (5..16 bytes) -/
+theorem C01.cast5_decrypt_encrypt_key (key : Bytes) (ks : Keys) (_h : new key = some ks) (b : BitVec 64) :
+    decrypt ks (encrypt ks b) = b :=
+  _root_.BC.Cast5.decrypt_encrypt_key key ks _h b
+end BC.Cast5
+
+namespace BC.Cast5
+theorem C01.cast5_encrypt_decrypt_key (key : Bytes) (ks : Keys) (_h : new key = some ks) (b : BitVec 64) :
+    encrypt ks (decrypt ks b) = b :=
+  _root_.BC.Cast5.encrypt_decrypt_key key ks _h b
+end BC.Cast5
+
+namespace BC.Serpent
+/-- every key (of any length; in particular each of the 17 accepted lengths 16..=32), every block -/
+theorem C01.serpent_decrypt_encrypt_key (key : Bytes) (blk : BitVec 128) :
+    decrypt (keySchedule key) (encrypt (keySchedule key) blk) = blk :=
+  _root_.BC.Serpent.decrypt_encrypt_key key blk
+end BC.Serpent
+
+namespace BC.Serpent
+theorem C01.serpent_encrypt_decrypt_key (key : Bytes) (blk : BitVec 128) :
+    encrypt (keySchedule key) (decrypt (keySchedule key) blk) = blk :=
+  _root_.BC.Serpent.encrypt_decrypt_key key blk
+end BC.Serpent
+
+namespace BC.Serpent
+/-- looped configuration, arbitrary round keys -/
+theorem C01.serpent_loop_decrypt_encrypt (rk : RoundKeys) (blk : BitVec 128) :
+    decryptLoop rk (encryptLoop rk blk) = blk :=
+  _root_.BC.Serpent.decryptLoop_encryptLoop rk blk
+end BC.Serpent
+
+namespace BC.Cast6
+/-- every key (any byte string; in particular the lengths 16/20/24/28/32), every block -/
+theorem C01.cast6_decrypt_encrypt_key (key : Bytes) (blk : BitVec 128) :
+    decrypt (keySchedule key) (encrypt (keySchedule key) blk) = blk :=
+  _root_.BC.Cast6.decrypt_encrypt_key key blk
+end BC.Cast6
+
+namespace BC.Cast6
+theorem C01.cast6_encrypt_decrypt_key (key : Bytes) (blk : BitVec 128) :
+    encrypt (keySchedule key) (decrypt (keySchedule key) blk) = blk :=
+  _root_.BC.Cast6.encrypt_decrypt_key key blk
+end BC.Cast6
+
+namespace BC.Threefish
+/-- **C01, byte API** (`encrypt_block` then `decrypt_block`), every key, every tweak, every block -/
+theorem C01.decryptBlock_encryptBlock {p : Params} {q : Nat → Nat} (hv : Valid p q) (c : Cipher p)
+    (b : Bytes) (hb : b.length = 8 * p.nw) : decryptBlock c (encryptBlock c b) = b :=
+  _root_.BC.Threefish.decryptBlock_encryptBlock hv c b hb
+end BC.Threefish
+
+namespace BC.Threefish
+theorem C01.encryptBlock_decryptBlock {p : Params} {q : Nat → Nat} (hv : Valid p q) (c : Cipher p)
+    (b : Bytes) (hb : b.length = 8 * p.nw) : encryptBlock c (decryptBlock c b) = b :=
+  _root_.BC.Threefish.encryptBlock_decryptBlock hv c b hb
+end BC.Threefish
+
+namespace BC.Threefish
+open BC.Spec.Threefish in
+theorem C01.tf256_decrypt_encrypt (key tweak block : Bytes) (hb : block.length = 32) :
+    decryptBlock (newWithTweak tf256 key tweak) (encryptBlock (newWithTweak tf256 key tweak) block) = block :=
+  _root_.BC.Threefish.tf256_decrypt_encrypt key tweak block hb
+end BC.Threefish
+
+namespace BC.Threefish
+open BC.Spec.Threefish in
+theorem C01.tf256_encrypt_decrypt (key tweak block : Bytes) (hb : block.length = 32) :
+    encryptBlock (newWithTweak tf256 key tweak) (decryptBlock (newWithTweak tf256 key tweak) block) = block :=
+  _root_.BC.Threefish.tf256_encrypt_decrypt key tweak block hb
+end BC.Threefish
+
+namespace BC.Threefish
+theorem C01.tf512_decrypt_encrypt (key tweak block : Bytes) (hb : block.length = 64) :
+    decryptBlock (newWithTweak tf512 key tweak) (encryptBlock (newWithTweak tf512 key tweak) block) = block :=
+  _root_.BC.Threefish.tf512_decrypt_encrypt key tweak block hb
+end BC.Threefish
+
+namespace BC.Threefish
+theorem C01.tf512_encrypt_decrypt (key tweak block : Bytes) (hb : block.length = 64) :
+    encryptBlock (newWithTweak tf512 key tweak) (decryptBlock (newWithTweak tf512 key tweak) block) = block :=
+  _root_.BC.Threefish.tf512_encrypt_decrypt key tweak block hb
+end BC.Threefish
+
+namespace BC.Threefish
+theorem C01.tf1024_decrypt_encrypt (key tweak block : Bytes) (hb : block.length = 128) :
+    decryptBlock (newWithTweak tf1024 key tweak) (encryptBlock (newWithTweak tf1024 key tweak) block) = block :=
+  _root_.BC.Threefish.tf1024_decrypt_encrypt key tweak block hb
+end BC.Threefish
+
+namespace BC.Threefish
+theorem C01.tf1024_encrypt_decrypt (key tweak block : Bytes) (hb : block.length = 128) :
+    encryptBlock (newWithTweak tf1024 key tweak) (decryptBlock (newWithTweak tf1024 key tweak) block) = block :=
+  _root_.BC.Threefish.tf1024_encrypt_decrypt key tweak block hb
+end BC.Threefish
+
+namespace BC.Rc2
+/-- … in particular for every key and every effective key length -/
+theorem C01.rc2_decrypt_encrypt_eff (key : Bytes) (t1 : Nat) (b : BitVec 64) :
+    decrypt (newWithEffKeyLen key t1) (encrypt (newWithEffKeyLen key t1) b) = b :=
+  _root_.BC.Rc2.decrypt_encrypt_eff key t1 b
+end BC.Rc2
+
+namespace BC.Rc2
+theorem C01.rc2_encrypt_decrypt_eff (key : Bytes) (t1 : Nat) (b : BitVec 64) :
+    encrypt (newWithEffKeyLen key t1) (decrypt (newWithEffKeyLen key t1) b) = b :=
+  _root_.BC.Rc2.encrypt_decrypt_eff key t1 b
+end BC.Rc2
+
+namespace BC.Camellia
+theorem C01.camellia_decrypt_encrypt128 (key b : BitVec 128) : decrypt128 key (encrypt128 key b) = b :=
+  _root_.BC.Camellia.decrypt_encrypt128 key b
+end BC.Camellia
+
+namespace BC.Camellia
+theorem C01.camellia_encrypt_decrypt128 (key b : BitVec 128) : encrypt128 key (decrypt128 key b) = b :=
+  _root_.BC.Camellia.encrypt_decrypt128 key b
+end BC.Camellia
+
+namespace BC.Camellia
+theorem C01.camellia_decrypt_encrypt192 (key : BitVec 192) (b : BitVec 128) : decrypt192 key (encrypt192 key b) = b :=
+  _root_.BC.Camellia.decrypt_encrypt192 key b
+end BC.Camellia
+
+namespace BC.Camellia
+theorem C01.camellia_encrypt_decrypt192 (key : BitVec 192) (b : BitVec 128) : encrypt192 key (decrypt192 key b) = b :=
+  _root_.BC.Camellia.encrypt_decrypt192 key b
+end BC.Camellia
+
+namespace BC.Camellia
+theorem C01.camellia_decrypt_encrypt256 (key : BitVec 256) (b : BitVec 128) : decrypt256 key (encrypt256 key b) = b :=
+  _root_.BC.Camellia.decrypt_encrypt256 key b
+end BC.Camellia
+
+namespace BC.Camellia
+theorem C01.camellia_encrypt_decrypt256 (key : BitVec 256) (b : BitVec 128) : encrypt256 key (decrypt256 key b) = b :=
+  _root_.BC.Camellia.encrypt_decrypt256 key b
+end BC.Camellia
+
+namespace BC.Aria
+theorem C01.aria_decrypt_encrypt128 (k b : BitVec 128) : decrypt128 k (encrypt128 k b) = b :=
+  _root_.BC.Aria.decrypt_encrypt128 k b
+end BC.Aria
+
+namespace BC.Aria
+theorem C01.aria_encrypt_decrypt128 (k b : BitVec 128) : encrypt128 k (decrypt128 k b) = b :=
+  _root_.BC.Aria.encrypt_decrypt128 k b
+end BC.Aria
+
+namespace BC.Aria
+theorem C01.aria_decrypt_encrypt192 (k : BitVec 192) (b : BitVec 128) : decrypt192 k (encrypt192 k b) = b :=
+  _root_.BC.Aria.decrypt_encrypt192 k b
+end BC.Aria
+
+namespace BC.Aria
+theorem C01.aria_encrypt_decrypt192 (k : BitVec 192) (b : BitVec 128) : encrypt192 k (decrypt192 k b) = b :=
+  _root_.BC.Aria.encrypt_decrypt192 k b
+end BC.Aria
+
+namespace BC.Aria
+theorem C01.aria_decrypt_encrypt256 (k : BitVec 256) (b : BitVec 128) : decrypt256 k (encrypt256 k b) = b :=
+  _root_.BC.Aria.decrypt_encrypt256 k b
+end BC.Aria
+
+namespace BC.Aria
+theorem C01.aria_encrypt_decrypt256 (k : BitVec 256) (b : BitVec 128) : encrypt256 k (decrypt256 k b) = b :=
+  _root_.BC.Aria.encrypt_decrypt256 k b
+end BC.Aria
+
+namespace BC.Sm4
+theorem C01.sm4_decrypt_encrypt_key (key : BitVec 128) (b : BitVec 128) :
+    decrypt (new key) (encrypt (new key) b) = b :=
+  _root_.BC.Sm4.decrypt_encrypt_key key b
+end BC.Sm4
+
+namespace BC.Sm4
+theorem C01.sm4_encrypt_decrypt_key (key : BitVec 128) (b : BitVec 128) :
+    encrypt (new key) (decrypt (new key) b) = b :=
+  _root_.BC.Sm4.encrypt_decrypt_key key b
+end BC.Sm4
+
+namespace BC.Magma
+theorem C01.gost89_decrypt_encrypt_key (sbox : SmallSbox) (key : BitVec 256) (b : BitVec 64) :
+    decrypt sbox (new key) (encrypt sbox (new key) b) = b :=
+  _root_.BC.Magma.decrypt_encrypt_key sbox key b
+end BC.Magma
+
+namespace BC.Magma
+theorem C01.gost89_encrypt_decrypt_key (sbox : SmallSbox) (key : BitVec 256) (b : BitVec 64) :
+    encrypt sbox (new key) (decrypt sbox (new key) b) = b :=
+  _root_.BC.Magma.encrypt_decrypt_key sbox key b
+end BC.Magma
+
+namespace BC.Belt
+theorem C01.belt_decrypt_encrypt_key (key : BitVec 256) (b : BitVec 128) :
+    decrypt (new key) (encrypt (new key) b) = b :=
+  _root_.BC.Belt.decrypt_encrypt_key key b
+end BC.Belt
+
+namespace BC.Belt
+theorem C01.belt_encrypt_decrypt_key (key : BitVec 256) (b : BitVec 128) :
+    encrypt (new key) (decrypt (new key) b) = b :=
+  _root_.BC.Belt.encrypt_decrypt_key key b
+end BC.Belt
+
+namespace BC.Belt
+theorem C01.wblockDec_wblockEnc (data : Bytes) (key : Key) (h : 32 ≤ data.length) :
+    wblockDec (wblockEnc data key).2 key = (.ok, data) :=
+  _root_.BC.Belt.wblockDec_wblockEnc data key h
+end BC.Belt
+
+namespace BC.Belt
+theorem C01.wblockEnc_wblockDec (data : Bytes) (key : Key) (h : 32 ≤ data.length) :
+    wblockEnc (wblockDec data key).2 key = (.ok, data) :=
+  _root_.BC.Belt.wblockEnc_wblockDec data key h
+end BC.Belt
+
+namespace BC.Twofish
+theorem C01.twofish_decrypt_encrypt_key (key : Array (BitVec 8)) (b : BitVec 128) :
+    decrypt (keySchedule key) (encrypt (keySchedule key) b) = b :=
+  _root_.BC.Twofish.decrypt_encrypt_key key b
+end BC.Twofish
+
+namespace BC.Twofish
+theorem C01.twofish_encrypt_decrypt_key (key : Array (BitVec 8)) (b : BitVec 128) :
+    encrypt (keySchedule key) (decrypt (keySchedule key) b) = b :=
+  _root_.BC.Twofish.encrypt_decrypt_key key b
+end BC.Twofish
+
+namespace BC.Idea
+/-- C01 for IDEA: all 2^128 keys, all blocks -/
+theorem C01.idea_decrypt_encrypt (key : BitVec 128) (b : BitVec 64) :
+    decrypt (new key) (encrypt (new key) b) = b :=
+  _root_.BC.Idea.decrypt_encrypt key b
+end BC.Idea
+
+namespace BC.Idea
+theorem C01.idea_encrypt_decrypt (key : BitVec 128) (b : BitVec 64) :
+    encrypt (new key) (decrypt (new key) b) = b :=
+  _root_.BC.Idea.encrypt_decrypt key b
+end BC.Idea
+
+namespace BC.Spec.Aes
+/-- **C01 (specification level)**: InvCipher undoes Cipher — all round counts, all key schedules, all blocks -/
+theorem C01.invCipher_cipher (nr : Nat) (w : Array (BitVec 32)) (b : BitVec 128) :
+    invCipher nr w (cipher nr w b) = b :=
+  _root_.BC.Spec.Aes.invCipher_cipher nr w b
+end BC.Spec.Aes
+
+namespace BC.Spec.Aes
+theorem C01.cipher_invCipher (nr : Nat) (w : Array (BitVec 32)) (b : BitVec 128) :
+    cipher nr w (invCipher nr w b) = b :=
+  _root_.BC.Spec.Aes.cipher_invCipher nr w b
+end BC.Spec.Aes
+
+namespace BC.AesNi
+open BC BC.X86 BC.Spec.Aes
+theorem C01.decrypt128_encrypt128 (key b : BitVec 128) : decrypt128 key (encrypt128 key b) = b :=
+  _root_.BC.AesNi.decrypt128_encrypt128 key b
+end BC.AesNi
+
+namespace BC.AesNi
+open BC BC.X86 BC.Spec.Aes
+theorem C01.encrypt128_decrypt128 (key b : BitVec 128) : encrypt128 key (decrypt128 key b) = b :=
+  _root_.BC.AesNi.encrypt128_decrypt128 key b
+end BC.AesNi
+
+namespace BC.AesNi
+open BC BC.X86 BC.Spec.Aes
+theorem C01.decrypt192_encrypt192 (key : BitVec 192) (b : BitVec 128) : decrypt192 key (encrypt192 key b) = b :=
+  _root_.BC.AesNi.decrypt192_encrypt192 key b
+end BC.AesNi
+
+namespace BC.AesNi
+open BC BC.X86 BC.Spec.Aes
+theorem C01.encrypt192_decrypt192 (key : BitVec 192) (b : BitVec 128) : encrypt192 key (decrypt192 key b) = b :=
+  _root_.BC.AesNi.encrypt192_decrypt192 key b
+end BC.AesNi
+
+namespace BC.AesNi
+open BC BC.X86 BC.Spec.Aes
+theorem C01.decrypt256_encrypt256 (key : BitVec 256) (b : BitVec 128) : decrypt256 key (encrypt256 key b) = b :=
+  _root_.BC.AesNi.decrypt256_encrypt256 key b
+end BC.AesNi
+
+namespace BC.AesNi
+open BC BC.X86 BC.Spec.Aes
+theorem C01.encrypt256_decrypt256 (key : BitVec 256) (b : BitVec 128) : encrypt256 key (decrypt256 key b) = b :=
+  _root_.BC.AesNi.encrypt256_decrypt256 key b
+end BC.AesNi
+
+namespace BC.AesSoft
+open BC BC.Spec.Aes
+/-- C01: single-block round trip for arbitrary round-key arrays (hence all keys), all four backends -/
+theorem C01.soft_roundtrip_128 (rk : Nat → AesFs64.St) (rk' : Nat → AesFs32.St) (x : BitVec 128) :
+    (AesFs64.single (AesFs64.aes128_decrypt rk) (AesFs64.single (AesFs64.aes128_encrypt rk) x) = x ∧ AesFs64.single (AesFs64.aes128_encrypt rk) (AesFs64.single (AesFs64.aes128_decrypt rk) x) = x) ∧
+    (AesFs64.single (AesFs64.aes128_decrypt_compact rk) (AesFs64.single (AesFs64.aes128_encrypt_compact rk) x) = x ∧ AesFs64.single (AesFs64.aes128_encrypt_compact rk) (AesFs64.single (AesFs64.aes128_decrypt_compact rk) x) = x) ∧
+    (AesFs32.single (AesFs32.aes128_decrypt rk') (AesFs32.single (AesFs32.aes128_encrypt rk') x) = x ∧ AesFs32.single (AesFs32.aes128_encrypt rk') (AesFs32.single (AesFs32.aes128_decrypt rk') x) = x) ∧
+    (AesFs32.single (AesFs32.aes128_decrypt_compact rk') (AesFs32.single (AesFs32.aes128_encrypt_compact rk') x) = x ∧ AesFs32.single (AesFs32.aes128_encrypt_compact rk') (AesFs32.single (AesFs32.aes128_decrypt_compact rk') x) = x) :=
+  _root_.BC.AesSoft.soft_roundtrip_128 rk rk' x
+end BC.AesSoft
+
+namespace BC.AesSoft
+open BC BC.Spec.Aes
+/-- C01: single-block round trip for arbitrary round-key arrays (hence all keys), all four backends -/
+theorem C01.soft_roundtrip_192 (rk : Nat → AesFs64.St) (rk' : Nat → AesFs32.St) (x : BitVec 128) :
+    (AesFs64.single (AesFs64.aes192_decrypt rk) (AesFs64.single (AesFs64.aes192_encrypt rk) x) = x ∧ AesFs64.single (AesFs64.aes192_encrypt rk) (AesFs64.single (AesFs64.aes192_decrypt rk) x) = x) ∧
+    (AesFs64.single (AesFs64.aes192_decrypt_compact rk) (AesFs64.single (AesFs64.aes192_encrypt_compact rk) x) = x ∧ AesFs64.single (AesFs64.aes192_encrypt_compact rk) (AesFs64.single (AesFs64.aes192_decrypt_compact rk) x) = x) ∧
+    (AesFs32.single (AesFs32.aes192_decrypt rk') (AesFs32.single (AesFs32.aes192_encrypt rk') x) = x ∧ AesFs32.single (AesFs32.aes192_encrypt rk') (AesFs32.single (AesFs32.aes192_decrypt rk') x) = x) ∧
+    (AesFs32.single (AesFs32.aes192_decrypt_compact rk') (AesFs32.single (AesFs32.aes192_encrypt_compact rk') x) = x ∧ AesFs32.single (AesFs32.aes192_encrypt_compact rk') (AesFs32.single (AesFs32.aes192_decrypt_compact rk') x) = x) :=
+  _root_.BC.AesSoft.soft_roundtrip_192 rk rk' x
+end BC.AesSoft
+
+namespace BC.AesSoft
+open BC BC.Spec.Aes
+/-- C01: single-block round trip for arbitrary round-key arrays (hence all keys), all four backends -/
+theorem C01.soft_roundtrip_256 (rk : Nat → AesFs64.St) (rk' : Nat → AesFs32.St) (x : BitVec 128) :
+    (AesFs64.single (AesFs64.aes256_decrypt rk) (AesFs64.single (AesFs64.aes256_encrypt rk) x) = x ∧ AesFs64.single (AesFs64.aes256_encrypt rk) (AesFs64.single (AesFs64.aes256_decrypt rk) x) = x) ∧
+    (AesFs64.single (AesFs64.aes256_decrypt_compact rk) (AesFs64.single (AesFs64.aes256_encrypt_compact rk) x) = x ∧ AesFs64.single (AesFs64.aes256_encrypt_compact rk) (AesFs64.single (AesFs64.aes256_decrypt_compact rk) x) = x) ∧
+    (AesFs32.single (AesFs32.aes256_decrypt rk') (AesFs32.single (AesFs32.aes256_encrypt rk') x) = x ∧ AesFs32.single (AesFs32.aes256_encrypt rk') (AesFs32.single (AesFs32.aes256_decrypt rk') x) = x) ∧
+    (AesFs32.single (AesFs32.aes256_decrypt_compact rk') (AesFs32.single (AesFs32.aes256_encrypt_compact rk') x) = x ∧ AesFs32.single (AesFs32.aes256_encrypt_compact rk') (AesFs32.single (AesFs32.aes256_decrypt_compact rk') x) = x) :=
+  _root_.BC.AesSoft.soft_roundtrip_256 rk rk' x
+end BC.AesSoft
